@@ -178,3 +178,34 @@ package stackitem
 //@ func (Null).Convert
 //@ ensures[fault] (result1 != nil) == (typ == AnyT || !validType(typ))
 //@ ensures[null] result1 == nil ==> is(result0, Null)
+
+// ---- CONVERT on primitive items (Integer, ByteString, Boolean): converting to the item's own type
+// gives the item itself; to Integer / Boolean gives the integer / boolean view of the item or the
+// view's error; any target other than Integer, ByteString, Buffer, Boolean is refused.
+//@ func (*BigInteger).Type
+//@ implements Item.Type
+//@ func (Bool).Type
+//@ implements Item.Type
+//@ func (*ByteArray).Type
+//@ implements Item.Type
+//@ func (*Buffer).Type
+//@ implements Item.Type
+//@ func (*Array).Type
+//@ implements Item.Type
+//@ func (*Struct).Type
+//@ implements Item.Type
+//@ func (*Map).Type
+//@ implements Item.Type
+//@ func (*Interop).Type
+//@ implements Item.Type
+//@ func (Null).Type
+//@ implements Item.Type
+//@ func convertPrimitive
+//@ opt frame off
+//@ requires[typeinv] wfItem(item)
+//@ ensures[same] typeOf(item) == typ ==> result1 == nil && result0 == item
+//@ ensures[int] typeOf(item) != typ && typ == IntegerT ==> (result1 == nil) == isInt(item) && (result1 == nil ==> is(result0, *BigInteger) && intOf(result0) == intOf(item))
+//@ ensures[bool] typeOf(item) != typ && typ == BooleanT ==> (result1 == nil) == isBool(item) && (result1 == nil ==> is(result0, Bool) && bool(result0.(Bool)) == boolOf(item))
+//@ ensures[refused] typeOf(item) != typ && typ != IntegerT && typ != BooleanT && typ != ByteArrayT && typ != BufferT ==> result1 != nil
+//@ func (*Pointer).Type
+//@ implements Item.Type
